@@ -308,7 +308,7 @@ pub fn run(args: &Args) -> i32 {
             let mut outstanding = tracker.verif_outstanding();
             if outstanding != 0 && pool != Pool::None {
                 let t0 = std::time::Instant::now();
-                while outstanding != 0 && t0.elapsed().as_secs_f64() < 5.0 {
+                while outstanding != 0 && t0.elapsed().as_secs_f64() < 60.0 {
                     std::thread::sleep(std::time::Duration::from_millis(1));
                     outstanding = tracker.verif_outstanding();
                 }
